@@ -69,6 +69,15 @@ func derefType(rtype reflect.Type) reflect.Type {
 	return rtype
 }
 
+// Get rid of 0 to many levels of pointers and interfaces to get at the real
+// value. The result is the invalid (zero) Value when a nil is met on the way.
+func derefValue(rvalue reflect.Value) reflect.Value {
+	for rvalue.Kind() == reflect.Ptr || rvalue.Kind() == reflect.Interface {
+		rvalue = rvalue.Elem()
+	}
+	return rvalue
+}
+
 func doMatchMatches(expression *grammar.MatchExpression, value reflect.Value) (bool, error) {
 	if !value.Type().ConvertibleTo(byteSliceTyp) {
 		return false, fmt.Errorf("Value of type %s is not convertible to []byte", value.Type())
@@ -128,9 +137,12 @@ func doMatchIn(expression *grammar.MatchExpression, value reflect.Value) (bool, 
 			// have to treat each element individually, checking each element's
 			// type/kind and rederiving the match value.
 			for i := 0; i < value.Len(); i++ {
-				item := value.Index(i).Elem()
-				itemType := derefType(item.Type())
-				kind := itemType.Kind()
+				item := derefValue(value.Index(i))
+				if !item.IsValid() {
+					// a nil element is not equal to anything
+					continue
+				}
+				kind := item.Kind()
 				// We need to special case errors here. The reason is that in an
 				// interface slice there can be a mix/match of types, but the
 				// coerce functions expect a certain type. So the expression
@@ -152,8 +164,8 @@ func doMatchIn(expression *grammar.MatchExpression, value reflect.Value) (bool, 
 				if eqFn == nil {
 					return false, fmt.Errorf(`unable to find suitable primitive comparison function for "in" comparison in interface slice: %s`, kind)
 				}
-				// the value will be the correct type as we verified the itemType
-				if eqFn(matchValue, reflect.Indirect(item)) {
+				// the value will be the correct type as we verified the item's kind
+				if eqFn(matchValue, item) {
 					return true, nil
 				}
 			}
@@ -172,9 +184,13 @@ func doMatchIn(expression *grammar.MatchExpression, value reflect.Value) (bool, 
 				return false, errors.New(`unable to find suitable primitive comparison function for "in" comparison`)
 			}
 			for i := 0; i < value.Len(); i++ {
-				item := value.Index(i)
+				item := derefValue(value.Index(i))
+				if item.Kind() != kind {
+					// a nil pointer element is not equal to anything
+					continue
+				}
 				// the value will be the correct type as we verified the itemType
-				if eqFn(matchValue, reflect.Indirect(item)) {
+				if eqFn(matchValue, item) {
 					return true, nil
 				}
 			}
